@@ -14,9 +14,9 @@ def qs(l):
     return "[" + "; ".join(q4(q) for q in l) + "]"
 
 
-HEADER = """From Verif Require Import NdIndex Quat RotArr ZoneModel.
+HEADER = """From Verif Require Import NdIndex Quat RotArr ZoneModel KField GroupK KFloat CertCheck RegionCertsAll.
 Open Scope float_scope.
-Record case := mk { Gl : list (quat (T:=float)); Gr : list (quat (T:=float)); N : list (quat (T:=float));
+Record case := mk { nl : String.string; nr : String.string; Gl : list (quat (T:=float)); Gr : list (quat (T:=float)); N : list (quat (T:=float));
   ms : list (quat (T:=float)); outs : list (quat (T:=float)); ins : list bool }.
 Definition eps9f : float := 1e-9.
 (* inside tests whose decisive dot product is within 1e-12 of the +-1e-9 tolerance are not compared *)
@@ -32,7 +32,8 @@ Definition ok_inside (c : case) : bool :=
 
 
 def case_coq(c):
-    return (f"mk {qs(c['Gl'])} {qs(c['Gr'])} {qs(c['N'])} {qs(c['m'])} {qs(c['out'])} "
+    head = 'mk "%s" "%s" ' % (c["pair"][0], c["pair"][1])
+    return (head + f"{qs(c['Gl'])} {qs(c['Gr'])} {qs(c['N'])} {qs(c['m'])} {qs(c['out'])} "
             "[" + "; ".join("true" if b else "false" for b in c["inside_in"]) + "]")
 
 
@@ -40,12 +41,12 @@ def run(tier, seed):
     ck = Check(PROP, tier, seed)
     ck.trusted += ["hand model Model/ZoneModel.v of map_into_symmetry_reduced_zone / OrientationRegion.__gt__ (tied by correspondence)",
                    "translator for the Hamilton product kernel",
-                   "region construction (pruning of normals, axis fundamental zone, vertex filter) is NOT modelled: its normals are taken from the implementation at run time; its adequacy is checked by the brute-force oracle for all 16x16 proper pairs (thorough) and all (C1, G)"]
+                   "region construction (pruning of normals, axis fundamental zone, vertex filter) is not modelled as code: the exact directions of the normals it produces for all 225 ordered pairs of proper groups are regenerated from /repo on every run (tools/translate/units_c05.py), recognised in K (fail-closed), compared with the run-time normals in the correspondence, and their adequacy (inside => minimal angle in the whole orbit) is PROVED via exact Farkas certificates checked in Coq", "the LP that finds the certificates (scipy) is untrusted: certificates are checked by vm_compute"]
     ck.assumptions += ["eps = 1e-9 tolerance of the inside test is part of the model; the minimal-angle theorem is for the exact test (eps = 0)",
                        "orbit = proper operations of both groups (property statement)"]
     if not ck.step_sanity():
         return ck.finish()
-    ck.step_prove(["groups", "quatkernels", "conversions"], "Props/C05.v", extra=["Model/ZoneModel.vo", "Model/RotArr.vo"])
+    ck.step_prove(["groups", "regions", "quatkernels", "conversions"], "Props/C05.v", extra=["Model/ZoneModel.vo", "Model/RotArr.vo", "Model/KFloat.vo"])
     out = run_impl("c05.py", {"seed": seed, "n": 30, "thorough": tier != "quick"}, timeout=3000)
     cases = out["cases"]
     for c in cases:
@@ -59,7 +60,18 @@ def run(tier, seed):
     chunks = []
     hdr = HEADER.replace("Definition ok (c : case)", "Definition ok_red (c : case)").replace(
         "Definition ok_inside (c : case)", "Definition ok_ins (c : case)")
-    hdr += "Definition ok (c : case) : bool := ok_red c && ok_ins c.\n"
+    hdr += """(* the exact (K) normals that the certificates are about, normalised and evaluated in binary64, are the
+   normals of the region the implementation built at run time (for pairs of proper groups) *)
+Definition qnormalizef (p : quat (T:=float)) : quat (T:=float) :=
+  let '(a, b, c, d) := p in let n := sqrt (a*a + b*b + c*c + d*d) in (a / n, b / n, c / n, d / n).
+Definition ok_normals (c : case) : bool :=
+  match find (fun rc => String.eqb (rc_l rc) (nl c) && String.eqb (rc_r rc) (nr c)) (List.concat all_region_certs) with
+  | None => true
+  | Some rc => let M := map (fun q => qnormalizef (kq2f q)) (rc_N rc) in
+               forallb (fun m => existsb (q_close m) (N c)) M && forallb (fun n => existsb (q_close n) M) (N c)
+  end.
+Definition ok (c : case) : bool := ok_red c && ok_ins c && ok_normals c.
+"""
     for i in range(0, len(cases), chunk):
         body = "Definition cases : list case := [\n" + ";\n".join(case_coq(c) for c in cases[i:i + chunk]) + "].\n"
         chunks.append((f"c{i // chunk}", body))
